@@ -228,7 +228,7 @@ Qed.
 Theorem step_backed base s o s' : wf cfg s -> Ghost cfg s -> Backed base s -> step cfg s o = Ok s' -> Backed base s'.
 Proof.
   intros [_ Hall] HG HB H. unfold step, step_gen in H.
-  destruct o as [c u tok amt dst rcv cd cb ftok fee|src dst sq|src dst sq|c u dst sq amt].
+  destruct o as [c u tok amt dst rcv cd cb ftok fee|src dst sq|src dst sq|c u dst sq amt|k src dst sq]; [| | | |discriminate].
   - destruct (transfer_chain cfg c (chains s c) (User u) tok amt dst rcv cd (if cb then CbBroken else CbNone) ftok fee) as [[cs p]|] eqn:E; [|discriminate].
     inv H. apply backed_chain; [exact HB|]. eapply transfer_chain_backed; eauto. exact I.
   - destruct (lookup src dst sq (packets s)) as [p|] eqn:El; [|discriminate].
